@@ -97,8 +97,22 @@ def run_program(spec, SG=None, entropy_log=None, fault_log=None):
     used_faults = fault_log if fault_log is not None else []
     try:
         with contextlib.redirect_stdout(io.StringIO()):
+            warm = None
+            if spec.get("warmup"):
+                # things the program did BEFORE it seeded: a model built and put into eval mode, some random draws, an unshuffled split
+                warm = nn.Sequential(nn.ReLU(), nn.Dropout(0.5))           # (no randomly initialised parameters: those would be drawn before the seed)
+                warm.eval()
+                sg.rand(spec["warmup"])
+                SG.data.split_dataset(np.zeros((12, 2), dtype=np.float32), np.zeros(12, dtype=np.float32), test_split=0.25, shuffle=False)
             sg.manual_seed(spec["seed"])
             tensors = []
+            if warm is not None:
+                warm.train()
+                H.add("warm:dropout", warm(sg.ones(4, 3)).data)
+                tr, te, va = SG.data.split_dataset(np.arange(24, dtype=np.float32).reshape(12, 2), np.arange(12, dtype=np.float32), test_split=0.25, shuffle=True)
+                H.add("warm:split", tr[0])
+                tr, te, va = SG.data.split_dataset(np.arange(24, dtype=np.float32).reshape(12, 2), np.arange(12, dtype=np.float32), test_split=0.25, shuffle=False)
+                H.add("warm:split_plain", tr[0])
             for n, s in enumerate(spec["steps"]):
                 k = s["k"]
                 if k == "rand":
@@ -124,13 +138,20 @@ def run_program(spec, SG=None, entropy_log=None, fault_log=None):
                 elif k == "split":
                     X = np.arange(s["n"] * 2, dtype=np.float32).reshape(s["n"], 2)
                     y = np.arange(s["n"], dtype=np.float32)
-                    tr, te, va = SG.data.split_dataset(X, y, test_split=s["test"], val_split=s["val"], shuffle=True)
+                    tr, te, va = SG.data.split_dataset(X, y, test_split=s["test"], val_split=s["val"], shuffle=s.get("shuffle", True))
                     for name, part in (("train", tr), ("test", te), ("val", va)):
                         if part is not None:
                             H.add(f"{n}:split:{name}:X", part[0])
                             H.add(f"{n}:split:{name}:y", part[1])
                 elif k == "train":
-                    model = nn.Sequential(nn.Linear(s["d"], s["h"]), nn.ReLU(), nn.Dropout(s["p"]), nn.Linear(s["h"], s["c"]))
+                    if s.get("deep"):
+                        # a model with more than 64 parameter tensors, initialised by looping over model.parameters()
+                        blocks = [nn.Linear(s["d"], s["h"])] + [nn.Linear(s["h"], s["h"]) for _ in range(s["deep"])]
+                        model = nn.Sequential(*blocks, nn.ReLU(), nn.Dropout(s["p"]), nn.Linear(s["h"], s["c"]))
+                        for p_ in model.parameters():
+                            nn.init.uniform_(p_, -0.3, 0.3)
+                    else:
+                        model = nn.Sequential(nn.Linear(s["d"], s["h"]), nn.ReLU(), nn.Dropout(s["p"]), nn.Linear(s["h"], s["c"]))
                     opt = SG.optim.SGD(model.parameters(), lr=0.05, momentum=0.9) if s["opt"] == "SGD" else SG.optim.Adam(model.parameters(), lr=0.01)
                     loss_fn = nn.CrossEntropyLoss()
                     for step in range(s["steps"]):
@@ -292,7 +313,7 @@ class ReproSim(Sim):
     PROBES = ["rand_family", "init_family", "layer_constructor", "dropout", "shuffled_split", "training_steps", "sumorder_float32", "generated_dag_program_float32", "gather_repeated_indices", "default_seed_on_scalar_leaf", "special_seed", "fresh_process_hashseed_0",
               "fresh_process_hashseed_1", "fresh_process_hashseed_random", "heap_displaced", "in_process_twice", "repetitions_without_reseed",
               "padded_conv_or_pool_float32", "batch_norm_running_statistics", "interrupted_execution_between_repetitions", "in_process_four_times_with_gc",
-              "one_hot_of_class_names", "random_tensor_with_explicit_float64", "operand_broadcast_along_several_axes"]
+              "one_hot_of_class_names", "random_tensor_with_explicit_float64", "operand_broadcast_along_several_axes", "work_done_before_seeding"]
     RULE = ("one run = one generated program over the random-consuming APIs + training steps + float32 multi-contribution graphs, executed over the "
             "matrix (twice in-process, 3 fresh interpreters with different PYTHONHASHSEED / heap layout, r repetitions of the deterministic part); "
             "distinct = multiset of APIs used x matrix; non-trivial = the program consumed randomness and was executed in a fresh process")
@@ -338,7 +359,7 @@ class ReproSim(Sim):
             elif k == "dropout":
                 s = {"k": "dropout", "p": rng.choice([0.1, 0.5, 0.9]), "shape": dims(2, 6, 2)}
             elif k == "split":
-                s = {"k": "split", "n": rng.choice([rng.randint(4, 20), 5000]), "test": rng.choice([0.2, 0.5]), "val": rng.choice([None, 0.25])}
+                s = {"k": "split", "n": rng.choice([rng.randint(4, 20), 12, 12, 5000]), "test": rng.choice([0.2, 0.5]), "val": rng.choice([None, 0.25]), "shuffle": rng.random() < 0.7}
             elif k == "gather":
                 rows = rng.randint(3, 8)
                 shape = [rows] + ([rng.randint(1, 3)] if rng.random() < 0.6 else [])
@@ -391,6 +412,9 @@ class ReproSim(Sim):
                 big = rng.random() < 0.15
                 s = {"k": "train", "d": rng.randint(2, 5), "h": 300 if big else rng.randint(2, 6), "c": rng.randint(2, 4), "p": rng.choice([0.0, 0.3]), "batch": 256 if big else rng.randint(2, 6),
                      "steps": rng.randint(1, 4), "opt": rng.choice(["SGD", "Adam"])}
+                if not big and rng.random() < 0.25:
+                    s["deep"] = rng.randint(33, 40)
+                    s["h"] = rng.randint(2, 3)
             else:
                 m = rng.randint(3, 7)
                 n = rng.randint(1, 4)
@@ -402,7 +426,8 @@ class ReproSim(Sim):
                 s["fault_between"] = {"kind": rng.choice(["alloc", "interrupt", "exit"]), "frac": round(rng.uniform(0.02, 0.99), 4)}
             steps.append(s)
         seed = rng.choice([0, 1, 2 ** 32 - 1, 42]) if rng.random() < 0.15 else rng.randrange(2 ** 31)      # all seeds, also the unusual ones
-        return {"k": "program", "seed": seed, "steps": steps, "hashseeds": ["0", "1", str(rng.randrange(1, 2 ** 31))], "junk": rng.choice([0, 2000, 20000])}
+        return {"k": "program", "seed": seed, "steps": steps, "hashseeds": ["0", "1", str(rng.randrange(1, 2 ** 31))], "junk": rng.choice([0, 2000, 20000]),
+                "warmup": rng.choice([0, 0, 3, 17])}
 
     def simplify(self, events):
         if len(events) != 1:
@@ -423,7 +448,9 @@ class ReproSim(Sim):
         return r.stdout.strip().split("\n")[-1], None
 
     def apply(self, st, ev):
-        spec = {"seed": ev["seed"], "steps": ev["steps"]}
+        spec = {"seed": ev["seed"], "steps": ev["steps"], "warmup": ev.get("warmup", 0)}
+        if spec["warmup"]:
+            st.probes["work_done_before_seeding"] += 1
         kinds = sorted({s["k"] + ":" + s.get("fn", s.get("kind", "")) for s in ev["steps"]})
         st.sig = kinds + [str(ev["junk"])]
         for s in ev["steps"]:
